@@ -18,6 +18,47 @@ CLAIMED = {
         design='4/C07'),
 }
 
+
+_X_NOTE = ('Trusted: MIR parser/executor, the library models and the term normaliser (validated every run: NOLUT-mode solver queries on small '
+           'versions, concrete runs against the native build, evaluation of the symbolic result), z3 5.1/4.8.12, the ISO oracle (cross-checked '
+           'with the qrcode crate tables). score::score is an uninterpreted stub, so the verdict holds whichever mask wins. Stage argument: '
+           'QRCode::new/create_matrix hand stream, level, version, mask unchanged to place_on_matrix.')
+_X_TECH = 'symbolic execution of the crate MIR (mirsym) of place_on_matrix per version with symbolic stream/level/mask + SMT (z3); Kani for scalar tables'
+
+CLAIMED.update({
+    'C03': dict(technique=_X_TECH,
+                text='Bounded model checking of the real placement::place_on_matrix (default::create_matrix, place_on_matrix_data, the eight mask '
+                     'sweeps, format info) for a concrete version with the whole codeword stream, the level and the mask option symbolic: every '
+                     'function-pattern module equals the ISO value as a constant, size is 17+4v, the tail of the backing array is untouched. '
+                     'Quick: 11 versions; thorough: all 40.',
+                note=_X_NOTE, design='4/C03'),
+    'C04': dict(technique=_X_TECH,
+                text='Kani proves the 32-entry format table = BCH(15,5)(level,mask) xor 0x5412 and the version table = BCH(18,6) for all entries; '
+                     'the matrix stage proves both format copies and both version copies sit at the ISO positions as functions of the symbolic '
+                     '(level, mask), that the applied mask is the reported one (also when the stubbed score picks it) and qr.mask/size fields.',
+                note=_X_NOTE + ' The ecl/version/mode fields and the default level are glue (QRCode::new), covered by the gate run when present.',
+                design='4/C04'),
+    'C05': dict(technique='Kani/CBMC proof harnesses over a fully symbolic usize length (Version::get vs ISO capacity reference)',
+                text='24 Kani harnesses: for every mode x level and every usize length, Version::get returns exactly the least version whose ISO '
+                     'capacity holds the payload (None beyond V40), and every larger version still holds it (so forced larger versions cannot make '
+                     'the terminator subtraction wrap).',
+                note='Trusted: Kani/CBMC, the in-harness ISO reference (Table 9 data + geometry formula, cross-checked in iso.py). Unwinding assertions on.',
+                design='4/C05'),
+    'C08': dict(technique=_X_TECH,
+                text='For a concrete version and symbolic stream/level/mask: every data module equals stream bit k (zig-zag order) xor the ISO Table 10 '
+                     'condition of the applied mask, format modules equal the BCH word, every other module is a constant - hence two builds differ '
+                     'exactly where the two mask conditions differ, on data modules plus format modules.',
+                note=_X_NOTE, design='4/C08'),
+    'C09': dict(technique='Kani/CBMC proof harness over a symbolic byte buffer with symbolic length',
+                text='best_encoding equals the ISO classification for every byte string of length 0..24 (quick) / 0..96 (thorough), every byte value at '
+                     'every position; classifier and value table agree on all 256 bytes.',
+                note='Trusted: Kani/CBMC; strings longer than the bound are outside the claim.', design='4/C09'),
+    'C15': dict(technique=_X_TECH,
+                text='For a concrete version and symbolic stream/level/mask the type bits of every module equal the ISO region label as a constant, and '
+                     'the number of data labels equals 8*total codewords + remainder bits.',
+                note=_X_NOTE, design='4/C15'),
+})
+
 NOT_YET = {}
 
 NA = {
@@ -40,7 +81,7 @@ def main():
                 'thorough_cmd': 'bin/check %s --tier thorough' % pid,
                 'evidence_file': 'evidence/%s.json' % pid,
                 'replay_cmd_template': 'bin/check %s --replay {path}' % pid,
-                'engine': 'mirsym+smt' if 'kani' not in c.get('engine', '') else c['engine'],
+                'engine': 'kani' if pid in ('C05', 'C09') else 'mirsym+smt',
                 'level_claimed': {'category': 'model_checking', 'text': c['text'], 'design_ref': c['design']},
                 'level_note': c['note'],
                 'technique': c['technique'],
@@ -62,7 +103,7 @@ def main():
         'engines': [
             {'name': 'mirsym+smt', 'path': 'engine/', 'serves_properties': sorted(CLAIMED),
              'kind_free_text': 'own symbolic executor for rustc MIR (-Zunpretty=mir of the current tree) -> hash-consed bit-vector terms -> SMT-LIB2, decided by z3 (5.1 and 4.8.12) and cvc5'},
-            {'name': 'kani', 'path': 'harness/kani/', 'serves_properties': [],
+            {'name': 'kani', 'path': 'harness/kani/', 'serves_properties': ['C03', 'C04', 'C05', 'C09'],
              'kind_free_text': 'Kani 0.68 / CBMC proof harnesses compiled inside a scratch overlay of the crate (scalar code only)'},
         ],
         'checks': checks,
